@@ -257,6 +257,53 @@ func (m *Machine) concretize(t *Term, what string) uint64 {
 	return first
 }
 
+// concretizeAlloc concretizes an allocation length: every value up to AllocEnumMax is
+// explored; larger lengths are explored at one representative value chosen by the solver
+// (recorded as a note; stated in the bounds of the check).
+func (m *Machine) concretizeAlloc(t *Term, signed bool, what string) int64 {
+	if t.IsConst() {
+		if signed {
+			return sext(t.Val, t.Sort.W)
+		}
+		return int64(t.Val)
+	}
+	T := m.tb.Const(t.Sort.W, uint64(m.P.AllocEnumMax))
+	if signed {
+		neg := m.tb.Cmp(OpSLt, t, m.tb.Const(t.Sort.W, 0))
+		if m.branch(neg) {
+			return -1
+		}
+	}
+	if m.branch(m.tb.Cmp(OpULe, t, T)) {
+		return int64(m.concretize(t, what))
+	}
+	// representative
+	if m.di < len(m.prefix) {
+		d := m.prefix[m.di]
+		m.di++
+		if d.Kind != 'c' {
+			panic(engineErr{"replay divergence at representative length"})
+		}
+		m.trace = append(m.trace, d)
+		m.addPC(m.tb.Eq(t, m.tb.Const(t.Sort.W, d.Choice)))
+		return int64(d.Choice)
+	}
+	v, ok := m.evalUnderModel(t)
+	if !ok {
+		res, md := m.checkWith()
+		if res != Sat {
+			m.noteUnknown("representative length")
+			panic(pathEnd{"unknown"})
+		}
+		m.setModel(md)
+		v = m.ev.Eval(t)
+	}
+	m.trace = append(m.trace, Decision{'c', v})
+	m.addPC(m.tb.Eq(t, m.tb.Const(t.Sort.W, v)))
+	m.notes = append(m.notes, fmt.Sprintf("length > %d explored at one representative value (%s)", m.P.AllocEnumMax, what))
+	return int64(v)
+}
+
 func (m *Machine) concretizeInt(t *Term, signed bool, what string) int64 {
 	v := m.concretize(t, what)
 	if signed {
@@ -408,6 +455,7 @@ func (m *Machine) resetPath(h *HarnessSpec, item WorkItem) {
 	m.depth = 0
 	m.params = h.Params
 	m.notes = nil
+	m.envVars = nil
 	m.threads = nil
 	m.curThread = nil
 	m.setModel(item.Model)
